@@ -844,6 +844,13 @@ func (s *Store) Patch(_ context.Context, obj client.Object, p client.Patch, opts
 		s.log(c)
 		return kerrors.NewConflict(gr(group, kind), c.Name, errString("injected conflict"))
 	}
+	if kind == "" {
+		// an object without a kind never reaches the API server: the client
+		// cannot even work out where to send it
+		c.Err = true
+		s.log(c)
+		return kerrors.NewBadRequest("Object 'Kind' is missing")
+	}
 	data, err := p.Data(obj)
 	if err != nil {
 		panic("kube model: patch data: " + err.Error())
